@@ -123,6 +123,10 @@ def run(chk):
 
     chk.borrow("C16.R7", c11.r5_pure_helpers, chk,
                only=lambda o: "mean_plane" in o["construct"] or "rotation_matrix_from_vectors" in o["construct"])
+    # ... and rotation_matrix_from_vectors must give a rotation for *every* pair of directions, the exactly opposite ones included
+    # (an XH3 group whose only neighbour lies straight along -z): the clauses C11.R6 decides for its antiparallel branch
+    chk.borrow("C16.R7", c11.r6_antiparallel_branch, chk)
+    chk.call(r5b_radius_accessors, chk)
 
 
 def _loop(f):
@@ -384,6 +388,17 @@ def r4_formula(chk, f):
         # table holds the valence electrons is not read here
         raise AnalysisError(f"{ve.key}: valence_electrons is looked up by the element's group in a table other than VALENCE_ELECTRONS - the derived table is not decided")
     chk.decide(direct, "C16.R4", f"{ve.key}:table-lookup", ve.where(), "VALENCE_ELECTRONS[element.group]", "valence_electrons is not looked up by the element's group")
+    if direct:
+        # ... and it is that table value, nothing else: the count formula of add_implicit_hydrogens subtracts the formal charge and the
+        # unpaired electrons itself; a getter that already corrects for one of them counts it twice
+        from ..canon import Env as _Env
+
+        rets = [r for r in ast.walk(ve.node) if isinstance(r, ast.Return) and r.value is not None]
+        vals = [norm(_Env(ve.node).expand(r.value)) for r in rets]
+        extra = [v for v in vals if v != "VALENCE_ELECTRONS[self.element.group]"]
+        chk.decide(not extra, "C16.R4", f"{ve.key}:table-value-uncorrected", ve.where(rets[0] if rets else None), "the getter returns the table value as it is",
+                   f"Atom.valence_electrons returns `{extra[0] if extra else ''}`: the table value is corrected inside the getter, and add_implicit_hydrogens "
+                   f"(`{want}`) applies its own correction on top - for a charged atom without a drawing hint the formal charge is counted twice (R3N+ gets no hydrogen, NH4+ three)")
 
 
 def _value_form(f):
@@ -636,3 +651,26 @@ def r6_orientation_and_table(chk, f):
             problems.append("vertex 0 is not +z (it is the one mapped onto the neighbour direction)")
     chk.decide(not problems, "C16.R6", "molli.math.polyhedra:TETRAHEDRON:unit-regular", where, "four unit vectors at the tetrahedral angle, vertex 0 = +z",
                "TETRAHEDRON: " + "; ".join(problems) + " - hydrogens placed from it are not at the sum of covalent radii / not tetrahedral")
+
+
+def r5b_radius_accessors(chk):
+    """R5 reads the bond length as `a.cov_radius_1 + Element.H.cov_radius_1`.  `Atom.cov_radius_1` is one of a family of accessors that
+    hand through the element's attribute *of the same name* (vdw_radius, cov_radius_1/2/3, cov_radius_grimme, color_cpk): siblings
+    that must agree with their own names - a copy-paste slip between neighbours (`cov_radius_1` returning the Grimme radius) leaves
+    H, C, N, O untouched and moves the hydrogens on B, Si, P, S."""
+    prog = chk.prog
+    atom = prog.cls("molli.chem.atom:Atom")
+    n = 0
+    for name, mem in atom.members.items():
+        if mem.getter is None:
+            continue
+        rets = [r for r in ast.walk(mem.getter) if isinstance(r, ast.Return) and r.value is not None]
+        if len(rets) != 1:
+            continue
+        v = rets[0].value
+        if isinstance(v, ast.Attribute) and norm(v.value) == "self.element" and (name.startswith(("cov_radius", "vdw_radius")) or v.attr.startswith(("cov_radius", "vdw_radius"))):
+            n += 1
+            chk.decide(v.attr == name, "C16.R5", f"{atom.module.relpath}:Atom.{name}:hands-through-the-element's-{name}", f"{atom.module.relpath}:{mem.getter.lineno}",
+                       f"self.element.{v.attr}", f"Atom.{name} returns self.element.{v.attr}: the bond length of a new X-H bond is taken from another radius table than the one "
+                       f"the routine names (they agree for H, C, N, O and the halogens and differ for B, Si, P, S)")
+    chk.require(n >= 4, f"only {n} radius accessors found on Atom")
